@@ -101,6 +101,10 @@ type H1Cfg struct {
 	// TrigDurNs is the trigger's own total duration (staged/ramp) as the generator configured it
 	TrigDurNs int64 `json:"trig_dur,omitempty"`
 	TieFree   bool  `json:"tie_free,omitempty"`
+	// H6
+	Input   *InputExpect `json:"input,omitempty"`
+	File    *FileExpect  `json:"file,omitempty"`
+	ReadEnv []string     `json:"read_env,omitempty"`
 }
 
 func (c *H1Cfg) plan(i int) IterPlan {
